@@ -17,6 +17,6 @@ for f in sorted(glob.glob(os.path.join(root, "seeded", "*", "meta.json"))):
             how.add("sanitizer: " + l.split("crash=")[1].split()[0])
     if not m.get("detected"):
         how = {"MISSED"}
-    needs = m["needs_to_manifest"]
+    needs = m["needs_to_manifest"].replace("|", "\\|")
     print("| %s | %s | %s | %s | %s | %s |" % (os.path.basename(os.path.dirname(f)), m["property"], needs[:220] + ("…" if len(needs) > 220 else ""),
           "yes" if m["confirmed_by_main_session"].get("confirmed") else "NO", "; ".join(sorted(how)), "yes" if m.get("with_concrete_input") else "no (no-failing-input-found)"))
